@@ -92,33 +92,101 @@ def ctx_rule(ctx, prefix):
         sets = ws is not None and any(n.get("k") == "assign" and sir.expr_str(n["l"]) == "has_whitespace" and n["r"].get("v") is True for n in sir.walk(ws.body))
         obs.append(ob("%s.ctx/%s/whitespace-flag" % (prefix, role), bool(sets), where, "a whitespace token sets has_whitespace: %s" % bool(sets)))
         # the pre-match: pending whitespace is re-emitted before every token except blocks-openers `{` and whitespace itself
-        pre = None
-        for n in sir.walk(loop):
-            if n.get("k") == "match" and n is not d.node:
-                emits_ws = any(x.get("k") == "call" and "WhiteSpace" in sir.expr_str(x) for x in sir.walk(n))
-                if emits_ws:
-                    pre = n
+        import guards as gd
+        G = gd.guards_of(loop)
+        inside_dispatch = set(id(x) for x in sir.walk(d.node))
+        emits = [x for x in sir.walk(loop) if x.get("k") == "call" and (sir.call_path(x) or "").endswith("StepToken::wrap") and "WhiteSpace" in sir.expr_str(x["args"][0]) and id(x) not in inside_dispatch]
         okp = False
         dsc = "pre-dispatch whitespace re-emission not found"
-        if pre is not None:
-            skip = set()
-            for a in pre["arms"]:
-                empty = not any(x.get("k") in ("call", "mcall") for x in sir.walk(a["body"]))
-                if empty:
-                    cases = a["pat"]["cases"] if a["pat"].get("k") == "p_or" else [a["pat"]]
-                    for c in cases:
-                        if c.get("k") in ("p_path", "p_ts", "p_struct"):
-                            skip.add(c["segs"][-1])
-            okp = skip == {"CurlyBracketBlock", "WhiteSpace"}
-            dsc = "pending whitespace is re-emitted before every token except %s (expected CurlyBracketBlock, WhiteSpace)" % sorted(skip)
+
+        def variants_of_pat(p_):
+            return set(c["segs"][-1] for c in sir.walk(p_) if c.get("k") in ("p_path", "p_ts", "p_struct") and len(c.get("segs", [])) >= 2 and c["segs"][-2] == "Token")
+
+        def kinds_of_test(c):
+            """token kinds K such that `c` is true iff the current token is one of K (matches!-style tests, possibly via a local)"""
+            if c.get("k") == "paren":
+                return kinds_of_test(c["e"])
+            if c.get("k") == "path" and len(c["segs"]) == 1:
+                for st_ in sir.walk(loop):
+                    if st_.get("k") == "local" and st_["pat"].get("name") == c["segs"][0] and st_.get("init") is not None:
+                        return kinds_of_test(st_["init"])
+                return None
+            if c.get("k") == "mac" and c.get("name") == "matches" and c.get("pat") is not None:
+                return variants_of_pat(c["pat"])
+            if c.get("k") == "match" and len(c["arms"]) == 2 and all(a["body"].get("k") == "lit" and a["body"].get("t") == "bool" for a in c["arms"]) and c["arms"][0]["body"]["v"] is True:
+                return variants_of_pat(c["arms"][0]["pat"])
+            return None
+        if len(emits) == 1:
+            w = emits[0]
+            gs = G.get(id(w), [])
+            has_ws = gd.truth_of_flag(gs, "has_whitespace") is True
+            skip = None
+            for kind, subj, pol in gs:
+                if kind == "cond":
+                    ks = kinds_of_test(subj)
+                    if ks is not None and pol is False:
+                        skip = ks
+                elif kind == "pat" and pol is True and subj[1] == "_":
+                    # the catch-all arm of a match on the token: the other arms (which do nothing) are the exceptions
+                    for m in sir.walk(loop):
+                        if m.get("k") == "match" and m is not d.node and any(any(y is w for y in sir.walk(a["body"])) for a in m["arms"] if a["pat"].get("k") == "p_wild"):
+                            sk = set()
+                            for a in m["arms"]:
+                                if a["pat"].get("k") != "p_wild" and not any(x.get("k") in ("call", "mcall") for x in sir.walk(a["body"])):
+                                    sk |= variants_of_pat(a["pat"])
+                            skip = sk
+            okp = has_ws and skip == {"CurlyBracketBlock", "WhiteSpace"}
+            dsc = "pending whitespace (has_whitespace: %s) is re-emitted before every token except %s (expected CurlyBracketBlock, WhiteSpace)" % (has_ws, sorted(skip) if skip is not None else "?")
             nodes = list(sir.walk(loop))
-            i_pre = [i for i, x in enumerate(nodes) if x is pre][0]
+            i_pre = [i for i, x in enumerate(nodes) if x is w][0]
             i_dis = [i for i, x in enumerate(nodes) if x is d.node][0]
             resets = [i for i, x in enumerate(nodes) if x.get("k") == "assign" and sir.expr_str(x["l"]) == "has_whitespace" and x["r"].get("v") is False]
             okp = okp and any(i_pre < r < i_dis for r in resets)
         obs.append(ob("%s.ctx/%s/whitespace-reemit" % (prefix, role), okp, where, dsc,
                       witness=None if okp else ":not(.a :hover) is emitted as :not(.a:hover)"))
     return obs
+
+
+def _true_literals(expr, sc, depth=0):
+    """(set of string literals for which `expr` is true, scrutinee node) for `matches!(x, "a" | "b")`, a match over string
+    literals with boolean arms, or a call of a private helper whose body is one of those (its parameter stands for the argument)"""
+    e = expr
+    while e.get("k") == "paren":
+        e = e["e"]
+    if e.get("k") == "mac" and e.get("name") == "matches" and e.get("pat") is not None:
+        return set(t["e"]["v"] for t in sir.walk(e["pat"]) if t.get("k") == "p_lit" and t["e"].get("t") == "str"), e.get("e")
+    if e.get("k") == "match":
+        lits = set()
+        okm = True
+        for a in e["arms"]:
+            b = a["body"]
+            while b.get("k") == "block" and len(b["stmts"]) == 1 and b["stmts"][0].get("k") == "expr":
+                b = b["stmts"][0]["e"]
+            if not (b.get("k") == "lit" and b.get("t") == "bool"):
+                okm = False
+                break
+            if b["v"] is True:
+                if a["pat"].get("k") == "p_wild":
+                    okm = False
+                    break
+                lits |= set(t["e"]["v"] for t in sir.walk(a["pat"]) if t.get("k") == "p_lit" and t["e"].get("t") == "str")
+        if okm and lits:
+            return lits, e["e"]
+    if e.get("k") == "call" and depth < 2 and len(e["args"]) == 1:
+        nm = sir.call_name(e)
+        cands = [g for g in sc.fns if g.name == nm and g.body]
+        if len(cands) == 1:
+            g = cands[0]
+            body = g.body
+            tail = body["stmts"][-1]["e"] if body["stmts"] and body["stmts"][-1].get("k") == "expr" else None
+            if tail is not None:
+                r = _true_literals(tail, sc, depth + 1)
+                if r:
+                    lits, scr = r
+                    pn = [x for x in g.param_names() if x]
+                    if scr is not None and pn and sir.expr_str(sir.strip_ref(scr)) == pn[0]:
+                        return lits, e["args"][0]
+    return None
 
 
 def rules_rule(ctx, prefix):
@@ -129,27 +197,15 @@ def rules_rule(ctx, prefix):
     f = d.fn
     ref = cm.css_ref()
     names = None
-    for n in sir.walk(f.body):
-        if n.get("k") == "local" and n["pat"].get("name") == "contain_rule_list" and n.get("init") is not None:
-            names = set()
-            for x in sir.walk(n["init"]):
-                if x.get("k") == "p_lit" and x["e"].get("t") == "str":
-                    names.add(x["e"]["v"])
-                if x.get("k") == "lit" and x.get("t") == "str":
-                    names.add(x["v"])
-    if names is None:
-        return [ob("%s.rules/anchor" % prefix, False, ctx.where(f), "rule-list table (contain_rule_list) not found")]
-    # the table is consulted with the at-rule's own name
     scrut = None
     for n in sir.walk(f.body):
         if n.get("k") == "local" and n["pat"].get("name") == "contain_rule_list" and n.get("init") is not None:
-            for x in sir.walk(n["init"]):
-                if x.get("k") == "match":
-                    scrut = x["e"]
-                    break
-                if x.get("k") == "mac" and x.get("name") == "matches" and x.get("e") is not None:
-                    scrut = x["e"]
-                    break
+            r = _true_literals(n["init"], ctx.sc)
+            if r:
+                names, scrut = r
+    if names is None:
+        return [ob("%s.rules/anchor" % prefix, False, ctx.where(f), "rule-list table (contain_rule_list) not found")]
+    # the table is consulted with the at-rule's own name
     oks = False
     ds = "table lookup not found"
     if scrut is not None:
@@ -241,12 +297,32 @@ def calc_rule(ctx, prefix):
     # the whitespace arm keeps a space next to + / - (look-ahead and look-behind)
     ws = d.arm("WhiteSpace")
     okw = False
+    dsw = "no whitespace arm"
     if ws:
-        s = " ".join(sir.expr_str(n) for n in sir.walk(ws.body) if n.get("k") in ("binary",))
-        guards = [sir.expr_str(a.get("guard")) for n in sir.walk(ws.body) if n.get("k") == "match" for a in n["arms"] if a.get("guard") is not None]
-        plus_minus = sum(1 for g in guards if "'+'" in g and "'-'" in g)
-        okw = plus_minus >= 2 and any(n.get("k") == "mcall" and n["m"] == "try_parse" for n in sir.walk(ws.body))
-    obs.append(ob("%s.calc/whitespace-arm" % prefix, okw, where, "whitespace is kept when the next or the previous token is `+` or `-` (both directions checked): %s" % okw))
+        # the arm itself plus the private helpers it calls (the test may be factored out)
+        nodes = list(sir.walk(ws.body))
+        seen_fns = set()
+        frontier = [ws.body]
+        for _ in range(2):
+            nxt = []
+            for b in frontier:
+                for n in sir.walk(b):
+                    if n.get("k") == "call":
+                        nm = sir.call_name(n)
+                        for g in ctx.sc.fns:
+                            if g.name == nm and g.body and id(g) not in seen_fns and g is not f:
+                                seen_fns.add(id(g))
+                                nodes += list(sir.walk(g.body))
+                                nxt.append(g.body)
+            frontier = nxt
+        chars = set(x.get("v") for x in nodes if x.get("k") == "lit" and x.get("t") == "char")
+        chars |= set(y["e"].get("v") for x in nodes if x.get("k") in ("arm", "mac") for y in sir.walk(x.get("pat") or {}) if y.get("k") == "p_lit")
+        ahead = any(x.get("k") == "mcall" and x["m"] in ("try_parse", "peek_including_whitespace", "peek") for x in nodes)
+        behind = any(x.get("k") == "path" and x.get("s") == "prev_token" for x in nodes)
+        calc = any(x.get("k") == "path" and x.get("s") == "in_calc" for x in sir.walk(ws.body))
+        okw = {"+", "-"} <= chars and ahead and behind and calc
+        dsw = "tests for `+`/`-`: %s; looks at the next token: %s; looks at the previous token: %s; only inside math functions: %s" % ({"+", "-"} <= chars, ahead, behind, calc)
+    obs.append(ob("%s.calc/whitespace-arm" % prefix, okw, where, "whitespace is kept when the next or the previous token is `+` or `-`: %s" % dsw))
     return obs
 
 
@@ -402,21 +478,80 @@ def class_only_rule(ctx, prefix):
         return obs
     f = wf[0]
     where = ctx.where(f)
-    conds = [sir.expr_str(n["cond"]).replace(" ", "") for n in sir.walk(f.body) if n.get("k") == "if" and n["cond"].get("k") != "let"]
-    lets = [sir.expr_str(n["cond"]).replace(" ", "") for n in sir.walk(f.body) if n.get("k") == "if" and n["cond"].get("k") == "let"]
-    ok_cond = "in_class&&ss.options.class_prefix.is_some()" in conds and conds.count("in_class") >= 1 and all(c in ("in_class", "in_class&&ss.options.class_prefix.is_some()") for c in conds)
-    obs.append(ob("%s.only/condition" % prefix, ok_cond, where, "a name is rewritten iff `in_class && class_prefix.is_some()`, the sign is written iff `in_class` (conditions found: %s)" % conds,
+    # what is written under which dominating conditions (lib/guards.py reads nested ifs, early returns, if-let, matches and
+    # Option::map closures alike)
+    import guards as gd
+    G = gd.guards_of(f.body)
+    pfx_names = gd.derived_names(f.body, "class_prefix")
+    pfx_names -= gd.derived_names(f.body, "class_prefix_sign") - gd.derived_names(f.body, "class_prefix.")
+
+    def m_prefix(e):
+        t = sir.expr_str(e)
+        if "class_prefix_sign" in t:
+            return False
+        return "class_prefix" in t or any(x.get("k") == "path" and len(x["segs"]) == 1 and x["segs"][0] in pfx_names for x in sir.walk(e))
+    sign_names = gd.derived_names(f.body, "class_prefix_sign")
+
+    def m_sign(e):
+        return "class_prefix_sign" in sir.expr_str(e) or any(x.get("k") == "path" and len(x["segs"]) == 1 and x["segs"][0] in sign_names for x in sir.walk(e))
+    writes = [n for n in sir.walk(f.body) if n.get("k") == "mcall" and n["m"] in ("append_token", "append_token_space_preserved") and len(n["args"]) == 3]
+    probs = []
+    n_rewrite = n_plain = n_sign = 0
+    for w in writes:
+        gs = G.get(id(w), [])
+        inc = gd.truth_of_flag(gs, "in_class")
+        pst = gd.option_state(gs, m_prefix)
+        sst = gd.option_state(gs, m_sign)
+        a0, a2 = sir.expr_str(w["args"][0]), sir.expr_str(w["args"][2])
+        tok = w["args"][0]
+        # resolve `st` to its StepToken::wrap(..) initialiser
+        if tok.get("k") == "path":
+            for st_ in sir.walk(f.body):
+                if st_.get("k") == "local" and st_["pat"].get("name") == sir.expr_str(tok) and st_.get("init") is not None and G.get(id(st_)) is not None and all(x in gs for x in G.get(id(st_), [])):
+                    a0 = sir.expr_str(st_["init"])
+        if "Token::Comment" in a0:
+            n_sign += 1
+            if inc is not True or sst != "some":
+                probs.append("the sign comment is written under in_class=%s, sign=%s (expected: in a class position, when a sign is configured)" % (inc, sst))
+            if pst is not None:
+                probs.append("the sign comment depends on the class prefix (%s)" % pst)
+        elif "Ident(src" in a2.replace(" ", ""):
+            n_rewrite += 1
+            if inc is not True or pst != "some":
+                probs.append("the prefixed name is written under in_class=%s, prefix=%s (expected: in a class position, when a prefix is configured)" % (inc, pst))
+        elif a2 == "None" and "next" in sir.expr_str(w["args"][0]):
+            n_plain += 1
+            if inc is True and pst == "some":
+                probs.append("the identifier is copied unchanged although it is a class name and a prefix is configured")
+            if inc is None and pst is None:
+                # `else` of `in_class && prefix.is_some()`: a negated conjunction of exactly those two tests
+                neg_conj = False
+                for kind, subj, pol in gs:
+                    if kind == "cond" and pol is False:
+                        atoms = gd._conj(subj, True)
+                        has_in = any(k_ == "cond" and a_.get("k") == "path" and sir.expr_str(a_) == "in_class" and p_ for k_, a_, p_ in atoms)
+                        has_px = any(gd.option_state([at], m_prefix) == "some" for at in atoms)
+                        if has_in and has_px and len(atoms) == 2:
+                            neg_conj = True
+                if not neg_conj:
+                    probs.append("the identifier is copied unchanged on a path that does not test in_class / the prefix")
+        else:
+            probs.append("unrecognised write `%s`" % sir.expr_str(w)[:80])
+    if not (n_rewrite == 1 and n_plain >= 1 and n_sign == 1):
+        probs.append("expected one sign write, one rewriting write and at least one plain copy; found %d/%d/%d" % (n_sign, n_rewrite, n_plain))
+    ok_cond = not probs
+    obs.append(ob("%s.only/condition" % prefix, ok_cond, where, "; ".join(probs) if probs else "a name is rewritten iff it is in a class position and a prefix is configured; the sign is written iff it is in a class position and a sign is configured; otherwise the token is copied",
                   witness=None if ok_cond else ".p--b with prefix p is left as .p--b instead of .p--p--b while the sign comment is still written"))
     fmts = [sir.format_call(n) for n in sir.walk(f.body) if sir.format_call(n)]
     ok_fmt = False
     for p in fmts:
         text = "".join(x[1] if x[0] == "lit" else "{}" for x in p)
-        holes = [sir.expr_str(x[1]) for x in p if x[0] == "hole"]
-        if text == "{}--{}" and len(holes) == 2 and "class_prefix" in holes[0] and holes[1] == "src":
+        holes = [x[1] for x in p if x[0] == "hole"]
+        if text == "{}--{}" and len(holes) == 2 and isinstance(holes[0], dict) and m_prefix(holes[0]) and sir.expr_str(holes[1]) == "src":
             ok_fmt = True
     obs.append(ob("%s.only/format" % prefix, ok_fmt, where, "the rewritten name is `{prefix}--{name}`: %s" % ok_fmt))
     # sign: Comment token with the configured content, original token as `src` for the source map
-    sign = any("class_prefix_sign" in c for c in lets)
+    sign = n_sign == 1
     src_ok = any(n.get("k") == "mcall" and n["m"] == "append_token_space_preserved" and len(n["args"]) == 3 and "Ident(src" in sir.expr_str(n["args"][2]) for n in sir.walk(f.body))
     obs.append(ob("%s.only/sign-and-src" % prefix, sign and src_ok, where, "sign comment from class_prefix_sign: %s; rewritten ident carries the original as source name: %s" % (sign, src_ok)))
     return obs
@@ -448,9 +583,40 @@ def rpx_rules(ctx, prefix):
     f = wf[0]
     where = ctx.where(f)
     # unit test
-    conds = [sir.expr_str(n["cond"]).replace(" ", "") for n in sir.walk(f.body) if n.get("k") == "if" and '"rpx"' in sir.expr_str(n["cond"])]
-    ok = conds == ['unit_str=="rpx"'] or conds == ['unit=="rpx"'] or conds == ['&**unit=="rpx"']
-    obs.append(ob("%s.expr/unit-test" % prefix, ok, where, "conversion applies exactly when the unit is `rpx`: condition %s" % conds,
+    import guards as gd
+    G = gd.guards_of(f.body)
+    unit_names = gd.derived_names(f.body, "unit") | {"unit"}
+
+    def unit_is_rpx(gs):
+        val = None
+        extra = []
+        for kind, subj, pol in gs:
+            if kind == "cond" and subj.get("k") == "binary" and subj.get("op") in ("==", "!="):
+                sides = [subj["l"], subj["r"]]
+                lit = [x for x in sides if sir.strip_ref(x).get("k") == "lit" and sir.strip_ref(x).get("v") == "rpx"]
+                oth = [x for x in sides if x not in lit]
+                if lit and oth and (sir.root_expr_name(sir.strip_ref(oth[0])) in unit_names or "unit" in sir.expr_str(oth[0])):
+                    val = (subj["op"] == "==") == pol
+                    continue
+            extra.append(sir.expr_str(subj)[:40] if kind == "cond" else str(subj[1])[:40])
+        return val, extra
+    conv = [n for n in sir.walk(f.body) if n.get("k") == "struct" and n["path"].endswith("Dimension") and any(x["name"] == "unit" and sir.expr_str(x["e"]).replace(" ", "").startswith('"vw"') for x in n["fields"])]
+    plain = [n for n in sir.walk(f.body) if n.get("k") == "mcall" and n["m"] == "append_token" and len(n["args"]) == 3 and sir.expr_str(n["args"][2]) == "None"]
+    probs = []
+    if len(conv) != 1:
+        probs.append("%d places build a `vw` dimension" % len(conv))
+    for n in conv:
+        v, extra = unit_is_rpx(G.get(id(n), []))
+        if v is not True or extra:
+            probs.append("the vw token is built under `unit is rpx` = %s%s" % (v, (" and further conditions %s" % extra) if extra else ""))
+    if not plain:
+        probs.append("no unconverted re-emission found")
+    for n in plain:
+        v, extra = unit_is_rpx(G.get(id(n), []))
+        if v is not False or extra:
+            probs.append("the unconverted copy is written under `unit is rpx` = %s%s" % (v, (" and further conditions %s" % extra) if extra else ""))
+    ok = not probs
+    obs.append(ob("%s.expr/unit-test" % prefix, ok, where, "; ".join(probs) if probs else "the vw token is built exactly when the unit is `rpx`; any other unit is copied",
                   witness=None if ok else "0rpx / other guarded values keep the unit rpx"))
     # new value expression
     nv = [n for n in sir.walk(f.body) if n.get("k") == "local" and n["pat"].get("name") == "new_value"]
@@ -950,7 +1116,22 @@ def sourcemap_rules(ctx, prefix):
     if wf:
         f = wf[0]
         calls = [n for n in sir.walk(f.body) if n.get("k") == "mcall" and n["m"] == "append_token" and len(n["args"]) == 3]
-        with_src = [c for c in calls if sir.expr_str(c["args"][2]).startswith("Some(Token::Dimension")]
+
+        def src_struct(c):
+            """the Token::Dimension literal passed as source name: written in place or bound to a local first"""
+            a = c["args"][2]
+            if not (a.get("k") == "call" and sir.call_name(a) == "Some" and a["args"]):
+                return None
+            x = sir.strip_ref(a["args"][0])
+            if x.get("k") == "mcall" and x["m"] == "clone" and not x["args"]:
+                x = sir.strip_ref(x["recv"])
+            if x.get("k") == "path" and len(x["segs"]) == 1:
+                for st_ in sir.walk(f.body):
+                    if st_.get("k") == "local" and st_["pat"].get("name") == x["segs"][0] and st_.get("init") is not None:
+                        x = st_["init"]
+                        break
+            return x if x.get("k") == "struct" and x["path"].endswith("Dimension") else None
+        with_src = [c for c in calls if src_struct(c) is not None]
         pos = all("next.position" in sir.expr_str(x) for x in sir.walk(f.body) if x.get("k") == "call" and (sir.call_path(x) or "").endswith("StepToken::wrap"))
         obs.append(ob("%s.src/rpx" % prefix, len(with_src) == 1 and pos, ctx.where(f), "the converted dimension carries the original token as name and the original position: %s" % (len(with_src) == 1 and pos)))
         # the name token is the original token, field by field
@@ -963,7 +1144,7 @@ def sourcemap_rules(ctx, prefix):
             return sir.expr_str(e)
         probs = []
         if len(with_src) == 1:
-            lit = with_src[0]["args"][2]["args"][0]
+            lit = src_struct(with_src[0])
             flds = {x["name"]: plain(x["e"]) for x in lit.get("fields", [])}
             params = set(f.param_names())
             for nm in ("has_sign", "value", "int_value", "unit"):
